@@ -447,6 +447,8 @@ def _norm_index(idx, ndim):
 def _as_int(x):
     if x is None:
         return None
+    if isinstance(x, NdArr) and not x.shape and not x.sp and not x.trail and len(x.data) == 1:
+        x = x.data[0]  # 0-d array used as an index
     if isinstance(x, bool):
         return int(x)
     if isinstance(x, int):
@@ -624,6 +626,17 @@ def at_update(arr: NdArr, idx, mode: str, val) -> NdArr:
     """arr.at[idx].set/add/multiply(val) as base + indicator(region) * (target - base)."""
     if arr.trail:
         raise AnalysisError(".at update on an array with trailing explicit dims")
+    if isinstance(idx, NdArr) and not idx.sp and idx.ndim == 1 and not arr.sp and len(arr.shape) == 1 and all(isinstance(_as_int(i), int) for i in idx.data):
+        # scatter into a concrete 1-d array at concrete integer positions (later duplicates win, as in numpy)
+        vals = val.data if isinstance(val, NdArr) else [val] * len(idx.data)
+        if len(vals) != len(idx.data):
+            raise Raised("ValueError", "incompatible shapes for .at scatter")
+        data = list(arr.data)
+        for i, v in zip(idx.data, vals):
+            j = _as_int(i) % arr.shape[0]
+            old_r, new_r = to_rat(data[j]), to_rat(v)
+            data[j] = new_r if mode == "set" else (old_r + new_r if mode == "add" else old_r * new_r)
+        return NdArr(arr.shape, data)
     nidx = _norm_index(idx, arr.ndim)
     if any(i is None for i in nidx):
         raise AnalysisError(".at index with newaxis")
